@@ -27,7 +27,7 @@ pub fn property() -> Property {
         parts: vec![
             Part {
                 name: "injected",
-                quick: 48,
+                quick: 96,
                 thorough: 1_500,
                 single_shard: false, supplementary: false,
                 run: |cfg| run_part(cfg, (prop_oneof![2 => gen::raw_pos(60), 1 => gen::raw_pos_endgames()], gen::raw_playout(6), 2..=4u32, any::<bool>(), 0..6u8), |(r, h, d, mode, k)| inj_case(r, h, *d, *mode, *k), check_injected),
@@ -43,7 +43,7 @@ pub fn property() -> Property {
             },
             Part {
                 name: "threaded",
-                quick: 48,
+                quick: 96,
                 thorough: 1_000,
                 single_shard: false, supplementary: false,
                 run: |cfg| run_part(cfg, (gen::raw_playout(40), 0..6u8, 0..8u8, any::<bool>()), |(r, kind, delay, quit)| thr_case(r, *kind, *delay, *quit), check_threaded),
@@ -335,7 +335,10 @@ pub struct ThrCase {
 
 fn thr_case(r: &gen::RawPlayout, kind: u8, delay: u8, quit: bool) -> ThrCase {
     // busy middlegames: early positions of playouts from the seeds
-    let g = gen::play(r, ClockDomain::Engine);
+    // (clock kept below the fifty-move limit: see the note in C07's build_go)
+    let mut start = gen::seed_position(r, ClockDomain::Engine);
+    start.half = start.half.min(40);
+    let g = gen::play_from(start, &r.choices);
     let delays = [0u64, 1, 10, 60, 120, 200, 260, 300];
     let mut go = GoSpec::default();
     match kind {
@@ -395,7 +398,11 @@ pub fn check_threaded(c: &ThrCase, ctx: &mut Ctx) -> Result<(), String> {
     }
     let out = match s.search(&c.go) {
         Wait::Done(o) => o,
-        Wait::ThreadDied(w) => return Err(format!("{what}: {w}")),
+        Wait::ThreadDied(_, d) if crate::engsess::is_k1_depth_form(crate::props::c07::root_ply(&root), d) => {
+            ctx.known.insert(crate::engsess::K1_DEPTH_FORM.to_string());
+            return Ok(());
+        }
+        Wait::ThreadDied(w, _) => return Err(format!("{what}: {w}")),
         Wait::Timeout => return Err(format!("{HARNESS_PREFIX} watchdog at {what}")),
     };
     match out.best_uci() {
@@ -413,7 +420,7 @@ pub fn check_threaded(c: &ThrCase, ctx: &mut Ctx) -> Result<(), String> {
     }
     let f = match s.search(&GoSpec::depth(1)) {
         Wait::Done(o) => o,
-        Wait::ThreadDied(w) => return Err(format!("{what}: follow-up go depth 1: {w}")),
+        Wait::ThreadDied(w, _) => return Err(format!("{what}: follow-up go depth 1: {w}")),
         Wait::Timeout => return Err(format!("{HARNESS_PREFIX} watchdog at follow-up of {what}")),
     };
     match f.best_uci() {
